@@ -192,6 +192,7 @@ fn reader_scenario(scenario: u32, c: &mut Choices, o: &mut Outcome) {
   let p_sched = Arc::clone(&sched);
   let p_traffic = traffic.clone();
   let p_err = Arc::clone(&producer_error);
+  let (quit_tx, quit_rx) = mpsc::channel::<()>();
   let producer = thread::spawn(move || {
     let r = std::panic::catch_unwind(std::panic::AssertUnwindSafe(|| {
       hooks::clock_start();
@@ -219,6 +220,13 @@ fn reader_scenario(scenario: u32, c: &mut Choices, o: &mut Outcome) {
         p_sched.yield_point(PRODUCER, 70);
       }
       hooks::yield_uninstall();
+      p_sched.finish(PRODUCER);
+      // The Reader must outlive the application's final check, as it does in a
+      // participant: dropping it drops the notification sender, and mio-extras
+      // then makes the channel readable once more to report the disconnection,
+      // which would look like a wake-up.
+      let _ = quit_rx.recv_timeout(StdDuration::from_secs(30));
+      drop(node);
       hooks::capture_stop();
       hooks::clock_stop();
     }));
@@ -237,6 +245,7 @@ fn reader_scenario(scenario: u32, c: &mut Choices, o: &mut Outcome) {
   let Ok(mut rr) = rx.recv_timeout(StdDuration::from_secs(20)) else {
     o.verdict = Verdict::Discard("producer did not start".into());
     sched.finish(CONSUMER);
+    let _ = quit_tx.send(());
     let _ = producer.join();
     return;
   };
@@ -469,6 +478,7 @@ fn reader_scenario(scenario: u32, c: &mut Choices, o: &mut Outcome) {
   hooks::yield_uninstall();
   hooks::clock_stop();
   sched.finish(CONSUMER);
+  let _ = quit_tx.send(());
   let _ = producer.join();
   frontend::drain_discovery_commands();
   if let Some(e) = producer_error.lock().unwrap().take() {
@@ -493,7 +503,14 @@ fn reader_scenario(scenario: u32, c: &mut Choices, o: &mut Outcome) {
     );
     return;
   }
-  let (switches, _trace) = sched.summary();
+  let (switches, trace) = sched.summary();
+  o.sample.push_str(&format!(
+    " yield-trace={:?}",
+    trace
+      .iter()
+      .map(|(t, id, sw)| format!("{}{}{}", if *t == CONSUMER { 'C' } else { 'P' }, id, if *sw { "!" } else { "" }))
+      .collect::<Vec<_>>()
+  ));
   o.nontrivial = switches >= 2;
   if switches >= 4 {
     o.label("switches>=4");
